@@ -12,7 +12,7 @@
 (*   C14        lower-level views = independent decode of the projection   *)
 (* Event k = "dec" (see harness/lang.go decEvent), k = "pair".             *)
 (***************************************************************************)
-EXTENDS TraceBase, Vector
+EXTENDS TraceBase, Decoder
 
 
 LowerLevels(L) == CASE L = "B" -> {} [] L = "T" -> {"B"} [] L = "E" -> {"B", "T"}
@@ -99,8 +99,17 @@ PairVerdict(ev) ==
      ELSE IF a.own # b.own THEN "fields:'" \o a.s \o "' and '" \o b.s \o "' differ in score, severity or encoding"
      ELSE "ok"
 
+\* MODEL-DRIFT diagnostic (never a violation): the decodeOne calls observed through the hook are
+\* the tokens the operational model Decoder!Decode processes, in order, up to where it stops
+StepsVerdict(ev) ==
+  LET r == Decode(ev.fam, ev.lvl, ev.s)
+      toks == TokensOf(ev.fam, ev.s)
+  IN IF Len(ev.toks) = r.steps /\ (\A i \in 1..r.steps : ev.toks[i] = toks[i]) THEN "ok"
+     ELSE "drift:decodeOne was called " \o ToString(Len(ev.toks)) \o " times on '" \o ev.s \o "', the operational model takes " \o ToString(r.steps) \o " steps"
+
 Verdict(ev) ==
   CASE ev.k = "dec" -> DecVerdict(ev)
+    [] ev.k = "steps" -> StepsVerdict(ev)
     [] ev.k = "pair" -> PairVerdict(ev)
     [] OTHER -> "harness:unknown event"
 
